@@ -249,6 +249,7 @@ type stdioTransport struct {
 	logger      Logger
 	contextFunc StdioContextFunc
 	session     *stdioSession
+	writeMu     sync.Mutex // serialises frames written to stdout
 }
 
 // stdioServerTransportOption configures a stdioTransport.
@@ -522,12 +523,14 @@ func (s *stdioTransport) writeResponse(response interface{}, writer io.Writer) e
 		return fmt.Errorf("error marshaling response: %w", err)
 	}
 
-	if _, err := writer.Write(data); err != nil {
+	// One frame = one Write of payload and terminator, under a lock: responses are written from one
+	// goroutine per request plus the outgoing-message pump, and must not interleave.
+	data = append(data, '\n')
+	s.writeMu.Lock()
+	_, err = writer.Write(data)
+	s.writeMu.Unlock()
+	if err != nil {
 		return fmt.Errorf("error writing response: %w", err)
-	}
-
-	if _, err := writer.Write([]byte("\n")); err != nil {
-		return fmt.Errorf("error writing newline: %w", err)
 	}
 
 	// Force flush buffer to ensure immediate delivery.
